@@ -19,6 +19,7 @@ func init() {
 			c19R3(c, "C19.R3")
 			c19R4(c, "C19.R4")
 			rulePageTypeExact(c, "C19.R5")
+			ruleOncePublication(c, "C19.R6") // concurrent checks on a read-only database must not see a half-built free list (spurious "unreachable unfreed")
 		},
 	})
 }
